@@ -61,6 +61,17 @@ def subst(v, pairs):
     from . import bytesmodel as BM
     if isinstance(v, BM.Tok):
         return BM.Tok(subst(v.kind, pairs) if is_sym(v.kind) else v.kind, subst(v.off, pairs) if is_sym(v.off) else v.off)
+    if isinstance(v, BM.SBytes):
+        return BM.SBytes(subst(v.length, pairs) if is_sym(v.length) else v.length, lambda q, v=v: subst(v.tok(q), pairs))
+    from .npmodel import SArray
+    if isinstance(v, SArray):
+        r = SArray(tuple(subst(d, pairs) if is_sym(d) else d for d in v.shape), lambda idx, v=v: subst(v.fn(idx), pairs), v.dtype)
+        return r
+    if isinstance(v, V.SObj) and v.cls is None and v.clsname.startswith('$') and not v.clsname.startswith(('$file', '$queue', '$hash', '$segy.')):
+        # immutable modelled value objects (headers, fields): substitute inside a copy
+        r = V.SObj(None, clsname=v.clsname)
+        r.fields.update({k: (x if callable(x) or isinstance(x, V.SObj) and x.clsname == '$segy' else subst(x, pairs)) for k, x in v.fields.items()})
+        return r
     return v
 
 
